@@ -586,11 +586,31 @@ Definition lenN {A} (l : list A) : N := lenN_acc l 0.
 
 (* The encoder writes onto an accumulator that holds the output reversed. *)
 
+(* [(p mod 2^k, p / 2^k)] by peeling [k] binary digits: much cheaper than the generic
+   [N.div_eucl] once extracted (which dominates the encoder otherwise) *)
+Fixpoint pos_split (k : nat) (p : positive) : N * N :=
+  match k with
+  | O => (0, Npos p)
+  | S k' =>
+    match p with
+    | xH => (1, 0)
+    | xO p' => let (lo, hi) := pos_split k' p' in (N.double lo, hi)
+    | xI p' => let (lo, hi) := pos_split k' p' in (N.succ_double lo, hi)
+    end
+  end.
+
+(* [(v mod 256, v / 256)] *)
+Definition split_byte (v : N) : N * N :=
+  match v with
+  | N0 => (0, 0)
+  | Npos p => pos_split 8 p
+  end.
+
 (* [rev (le_bytes n v) ++ acc] *)
 Fixpoint le_push (n : nat) (v : N) (acc : bytes) : bytes :=
   match n with
   | O => acc
-  | S n' => le_push n' (v / 256) (v mod 256 :: acc)
+  | S n' => let (lo, hi) := split_byte v in le_push n' hi (lo :: acc)
   end.
 
 (* [rev bs ++ acc] if all of [bs] are bytes *)
